@@ -445,11 +445,12 @@ class Ctx:
             wall_s=round(wall, 2),
             violations=len(new),
         )
-        os.makedirs(EVID_DIR, exist_ok=True)
-        tmp = os.path.join(EVID_DIR, f".{self.prop}.json.tmp")
-        with open(tmp, "w") as fh:
-            json.dump(ev, fh, indent=1, default=str)
-        os.replace(tmp, os.path.join(EVID_DIR, f"{self.prop}.json"))
+        if not getattr(self, "is_replay", False):   # a --replay run never overwrites the check's evidence
+            os.makedirs(EVID_DIR, exist_ok=True)
+            tmp = os.path.join(EVID_DIR, f".{self.prop}.json.tmp{os.getpid()}")
+            with open(tmp, "w") as fh:
+                json.dump(ev, fh, indent=1, default=str)
+            os.replace(tmp, os.path.join(EVID_DIR, f"{self.prop}.json"))
         for l in lines:
             print(l)
         if missing:
